@@ -657,6 +657,25 @@ class Program:
             return vals if isinstance(e, ast.List) else tuple(vals)
         if isinstance(e, ast.Dict):
             return {F(k): F(v) for k, v in zip(e.keys, e.values) if k is not None}
+        if isinstance(e, ast.IfExp):
+            return F(e.body) if F(e.test) else F(e.orelse)
+        if isinstance(e, ast.Compare) and len(e.ops) == 1 and isinstance(e.ops[0], (ast.Eq, ast.NotEq, ast.Lt, ast.LtE, ast.Gt, ast.GtE)):
+            a_, b_ = F(e.left), F(e.comparators[0])
+            try:
+                return {ast.Eq: a_ == b_, ast.NotEq: a_ != b_, ast.Lt: a_ < b_, ast.LtE: a_ <= b_, ast.Gt: a_ > b_, ast.GtE: a_ >= b_}[type(e.ops[0])]
+            except TypeError as ex:
+                raise NotConst(str(ex))
+        if isinstance(e, ast.BoolOp):
+            vals_ = [F(v) for v in e.values]
+            out_ = vals_[0]
+            for v in vals_[1:]:
+                out_ = (out_ and v) if isinstance(e.op, ast.And) else (out_ or v)
+            return out_
+        if isinstance(e, ast.Call) and isinstance(e.func, ast.Name) and not e.keywords:
+            r0 = self.resolve_name(m, e.func.id, cls)
+            if isinstance(r0, FuncInfo) and r0.kind == "function" and not r0.is_async:
+                # a module-level pure integer function applied to constants (a table computed at import): bounded evaluation
+                return self._eval_pure(r0, [F(a) for a in e.args], depth)
         if isinstance(e, ast.Call):
             fn = e.func
             fname = None
@@ -758,6 +777,50 @@ class Program:
                 return dict(out)
             return tuple(out) if isinstance(e, ast.ListComp) else frozenset(out)
         raise NotConst(norm(e))
+
+    def _eval_pure(self, f: "FuncInfo", args: list, depth: int):
+        """Value of f(*args) for a function made of local assignments, `for .. in range(..)`, if / else and return over constants
+        (no calls but through fold, no attribute or global stores): constant propagation with a step bound."""
+        if depth > 6 or len(args) != len(f.params) or not all(isinstance(a, (int, bool)) for a in args):
+            raise NotConst("pure call")
+        env = dict(zip(f.params, args))
+        steps = [0]
+
+        class _Ret(Exception):
+            def __init__(self, v):
+                self.v = v
+
+        def run(stmts):
+            for st in stmts:
+                steps[0] += 1
+                if steps[0] > 20000:
+                    raise NotConst("step bound")
+                if isinstance(st, ast.Expr) and isinstance(st.value, ast.Constant):
+                    continue
+                if isinstance(st, ast.Assign) and len(st.targets) == 1 and isinstance(st.targets[0], ast.Name):
+                    env[st.targets[0].id] = self.fold(st.value, f.module, None, env, depth + 1)
+                elif isinstance(st, ast.AugAssign) and isinstance(st.target, ast.Name):
+                    env[st.target.id] = self.fold(ast.BinOp(left=ast.Name(id=st.target.id, ctx=ast.Load()), op=st.op, right=st.value), f.module, None, env, depth + 1)
+                elif isinstance(st, ast.If):
+                    run(st.body if self.fold(st.test, f.module, None, env, depth + 1) else st.orelse)
+                elif isinstance(st, ast.For) and isinstance(st.target, ast.Name) and not st.orelse:
+                    it = self.fold(st.iter, f.module, None, env, depth + 1)
+                    if not isinstance(it, (range, tuple, list)) or len(it) > 4096:
+                        raise NotConst("loop source")
+                    for v in it:
+                        env[st.target.id] = v
+                        run(st.body)
+                elif isinstance(st, ast.Return):
+                    raise _Ret(self.fold(st.value, f.module, None, env, depth + 1) if st.value is not None else None)
+                elif isinstance(st, ast.Pass):
+                    continue
+                else:
+                    raise NotConst(f"statement {type(st).__name__} in a pure function")
+        try:
+            run(f.node.body)
+        except _Ret as r:
+            return r.v
+        return None
 
     def _fold_entity(self, r, depth):
         if isinstance(r, tuple) and r[0] == "modconst":
